@@ -1,6 +1,7 @@
 """C17  Key and secret derivations match the specification."""
 import hashlib
 
+from core import env
 from core import term as T
 
 ID = "C17"
@@ -210,26 +211,46 @@ def call_sites(ctx):
         terms.append("list_N_eqb (spec_storage_index %s) %s" % (T.bytes_(key), T.bytes_(chk.get_storage_index())))
         info.append(("uri.CHKFileURI", key))
 
-        # mutable node: write enabler and per-server lease secrets
+        # mutable node: write enabler and per-server lease secrets, asked the way Publish and the servermap updater ask:
+        # ONE node, several real NativeStorageServer objects (some sharing the abbreviated name, the nickname, or the
+        # first bytes of the tub id), all three secrets per server, then again in another order
         node = MutableFileNode(None, sh, {"k": 3, "n": 10}, None)
-        u = uri.WriteableSSKFileURI(writekey, fp)
+        u = (uri.WriteableSSKFileURI if i % 2 == 0 else uri.WriteableMDMFFileURI)(writekey, fp)
         node.init_from_cap(u)
-        we = node.get_write_enabler(_Srv(peer))
-        rs = node.get_renewal_secret(_Srv(peer))
-        cs = node.get_cancel_secret(_Srv(peer))
         si = u.storage_index
         wem = _tag(b"allmydata_mutable_writekey_to_write_enabler_master_v1", writekey)
-        want_we = _pair(b"allmydata_mutable_write_enabler_master_and_nodeid_to_write_enabler_v1", wem, peer)
         crs = _tag(lease_secret, b"allmydata_client_renewal_secret_v1")
         ccs = _tag(lease_secret, b"allmydata_client_cancel_secret_v1")
-        want_rs = _pair(b"allmydata_bucket_renewal_secret_v1", _pair(b"allmydata_file_renewal_secret_v1", crs, si), peer)
-        want_cs = _pair(b"allmydata_bucket_cancel_secret_v1", _pair(b"allmydata_file_cancel_secret_v1", ccs, si), peer)
-        ctx.case(("node", lease_secret, writekey, peer), kind="mutable-node-secrets")
-        for what, got, want in (("write-enabler", we, want_we), ("renewal-secret", rs, want_rs), ("cancel-secret", cs, want_cs)):
-            if got != want:
-                ctx.oracle_fail("call-site:mutable-node-" + what, "MutableFileNode %s differs from the specified chain" % what,
-                                case={"lease_secret": lease_secret.hex(), "writekey": writekey.hex(), "peer": peer.hex()},
-                                expected=want.hex(), observed=got.hex())
+        frs = _pair(b"allmydata_file_renewal_secret_v1", crs, si)
+        fcs = _pair(b"allmydata_file_cancel_secret_v1", ccs, si)
+        key0 = rbytes(r, 32)
+        servers = [(_real_server(key0, peer, "alpha"), peer)]
+        p2 = rbytes(r, 20)
+        servers.append((_real_server(key0[:5] + rbytes(r, 27), p2, "alpha"), p2))          # same 8-char abbreviated name, same nickname
+        p3 = peer[:10] + rbytes(r, 10)
+        servers.append((_real_server(rbytes(r, 32), p3, "gamma"), p3))                     # tub id shares a 10-byte prefix
+        p4 = rbytes(r, 10) + peer[10:]
+        servers.append((_real_server(rbytes(r, 32), p4, ""), p4))                          # tub id shares a 10-byte suffix
+        asked = list(servers) + list(reversed(servers))
+        r.shuffle(asked)
+        asked = list(servers) + asked
+        first = None
+        for (srv, pid_) in asked:
+            got3 = (node.get_write_enabler(srv), node.get_renewal_secret(srv), node.get_cancel_secret(srv))
+            want3 = (_pair(b"allmydata_mutable_write_enabler_master_and_nodeid_to_write_enabler_v1", wem, pid_),
+                     _pair(b"allmydata_bucket_renewal_secret_v1", frs, pid_), _pair(b"allmydata_bucket_cancel_secret_v1", fcs, pid_))
+            if first is None:
+                first = got3
+            ctx.case(("node", lease_secret, writekey, pid_), kind="mutable-node-secrets")
+            for what, got, want in zip(("write-enabler", "renewal-secret", "cancel-secret"), got3, want3):
+                if got != want:
+                    ctx.oracle_fail("call-site:mutable-node-" + what, "MutableFileNode %s for server %s (tub id %s) differs from the specified chain; "
+                                    "the node was asked about %d servers, two of them abbreviated %r" % (
+                                        what, srv.get_longname().decode(), pid_.hex(), len(servers), servers[0][0].get_name().decode()),
+                                    case={"lease_secret": lease_secret.hex(), "writekey": writekey.hex(), "peer": pid_.hex(),
+                                          "asked_order": [q.hex() for (_s, q) in asked]},
+                                    expected=want.hex(), observed=got.hex())
+        we, rs, cs = first
         terms.append("list_N_eqb (spec_write_enabler %s %s) %s" % (T.bytes_(writekey), T.bytes_(peer), T.bytes_(we)))
         info.append(("MutableFileNode.get_write_enabler", writekey))
         terms.append("list_N_eqb (spec_renewal_secret_chain %s %s %s) %s" % (T.bytes_(lease_secret), T.bytes_(si), T.bytes_(peer), T.bytes_(rs)))
@@ -258,12 +279,15 @@ def call_sites(ctx):
     ctx.trace(len(terms) - len(bad))
 
 
-class _Srv(object):
-    def __init__(self, peer):
-        self.peer = peer
-
-    def get_foolscap_write_enabler_seed(self):
-        return self.peer
-
-    def get_lease_seed(self):
-        return self.peer
+def _real_server(pubkey32, tubid20, nickname):
+    """A real NativeStorageServer built from an introducer announcement: server id 'v0-<base32 key>', the 20-byte tub id
+    (what write enablers and lease secrets are bound to) carried by the FURL."""
+    from allmydata.node import config_from_string
+    from allmydata.storage_client import NativeStorageServer, StorageClientConfig
+    from allmydata.util import base32
+    furl = "pb://%s@tcp:127.0.0.1:1/swissnum" % base32.b2a(tubid20).decode("ascii")
+    ann = {"anonymous-storage-FURL": furl, "nickname": nickname}
+    cfg = config_from_string(env.subdir("c17-node"), "", "")
+    srv = NativeStorageServer(b"v0-" + base32.b2a(pubkey32), ann, None, {}, cfg, StorageClientConfig())
+    assert srv.get_lease_seed() == tubid20 and srv.get_foolscap_write_enabler_seed() == tubid20
+    return srv
